@@ -41,6 +41,7 @@ pub mod sim {
 
     #[derive(Clone, Copy)]
     pub struct Region {
+        pub magic: u32,
         pub base: u64,
         /// entry: registered; trampoline: currently mapped
         pub live: bool,
@@ -57,6 +58,7 @@ pub mod sim {
         pub nwrites: u32,
     }
     pub const EMPTY: Region = Region {
+        magic: 0x5eed_c0de,
         base: 0,
         live: false,
         slot: 0,
@@ -67,57 +69,115 @@ pub mod sim {
         nwrites: 0,
     };
 
+    /// ALL mutable model state lives in this one struct.  Kani 0.68 was measured to alias a
+    /// zero-initialised scalar `static mut` with equal-valued constants of std (writing
+    /// `static mut X: u64 = 0` changed what `Vec::new()` returned), so there are deliberately no
+    /// scalar statics: one struct, with a magic first field that no constant shares.
+    #[allow(non_snake_case)]
+    pub struct State {
+        pub MAGIC: u64,
+        /// how many entry / trampoline slots the current harness uses (concrete; bounds every model loop)
+        pub NE_ACT: usize,
+        pub NJ_ACT: usize,
+        /// next unused trampoline slot
+        pub NJIT: usize,
+        pub PAGE: u64,
+        /// kernel model: 0 = cooperative (every mmap succeeds within COOP_RANGE of COOP_CENTER),
+        /// 1 = any-kernel (each mmap fails or returns an arbitrary free page),
+        /// 2 = layout-kernel (hint honoured iff that page is free in the layout)
+        pub MODE: u8,
+        pub COOP_CENTER: u64,
+        pub COOP_RANGE: u64,
+        /// layout-kernel: 0 = neighbourhood empty, 1 = full, 2 = exactly one free page
+        pub LAYOUT: u8,
+        pub LAYOUT_FREE: u64,
+        /// layout-kernel: what a non-honoured hint gets: 0 = MAP_FAILED, else this address
+        pub LAYOUT_FALLBACK: u64,
+        /// extent of the neighbourhood the layout talks about: [LAYOUT_LO, LAYOUT_HI]
+        pub LAYOUT_LO: u64,
+        pub LAYOUT_HI: u64,
+        /// mprotect may fail (symbolically) when set
+        pub MPROTECT_MAY_FAIL: bool,
+        /// any-kernel: the mmap call with this ordinal (1-based) succeeds strictly inside
+        /// COOP_RANGE of COOP_CENTER (0 = never forced)
+        pub ANY_FORCE_AT: u32,
+        /// single-installation harnesses: at every mmap call the function must still be untouched
+        /// and no earlier (rejected) trampoline may still be mapped
+        pub ALLOC_STRICT: bool,
+        // ---- event counters, read by the harnesses ----
+        pub N_MMAP: u32,
+        pub N_MMAP_OK: u32,
+        pub N_MUNMAP: u32,
+        pub N_MPROTECT: u32,
+        pub N_WRITE: u32,
+        pub N_FLUSH: u32,
+        pub N_BARRIER: u32,
+        /// true iff a barrier was executed after the most recent flush
+        pub BARRIER_SINCE_FLUSH: bool,
+        /// a simulated write happened while the process-wide injector lock was free
+        pub UNLOCKED_WRITE: bool,
+        // ---- harness-side switches (kept here for the same reason) ----
+        /// simulated writes must happen under the injector lock (API-level harnesses)
+        pub REQUIRE_LOCK: bool,
+        /// value returned by the stub of std::thread::panicking()
+        pub PANICKING: bool,
+        /// scratch cells for harnesses (symbolic budgets, effect values, ...)
+        pub CELL: [u64; 8],
+    }
+    /// The two region tables are separate statics (one big struct made every byte access a
+    /// whole-struct update: 2.7x more clauses); `Region::magic` keeps their initial bytes unlike
+    /// any constant of std.
     pub static mut ENT: [Region; NE] = [EMPTY; NE];
     pub static mut JIT: [Region; NJ] = [EMPTY; NJ];
-    /// next unused trampoline slot
-    pub static mut NJIT: usize = 0;
-
-    pub static mut PAGE: u64 = 4096;
-
-    // ---- kernel model selection ------------------------------------------------
-    /// 0 = cooperative (every mmap succeeds within COOP_RANGE of COOP_CENTER)
-    /// 1 = any-kernel (each mmap fails or returns an arbitrary free page)
-    /// 2 = layout-kernel (hint honoured iff that page is free in the layout)
-    pub static mut MODE: u8 = 0;
-    pub static mut COOP_CENTER: u64 = 0;
-    pub static mut COOP_RANGE: u64 = 0x800_0000;
-    /// layout-kernel: 0 = neighbourhood empty, 1 = full, 2 = exactly one free page
-    pub static mut LAYOUT: u8 = 0;
-    pub static mut LAYOUT_FREE: u64 = 0;
-    /// layout-kernel: what a non-honoured hint gets: 0 = MAP_FAILED, else this address
-    pub static mut LAYOUT_FALLBACK: u64 = 0;
-    /// extent of the neighbourhood the layout talks about: [LAYOUT_LO, LAYOUT_HI]
-    pub static mut LAYOUT_LO: u64 = 0;
-    pub static mut LAYOUT_HI: u64 = 0;
-    /// mprotect may fail (symbolically) when set
-    pub static mut MPROTECT_MAY_FAIL: bool = false;
-
-    // ---- event counters, read by the harnesses ---------------------------------
-    pub static mut N_MMAP: u32 = 0;
-    pub static mut N_MMAP_OK: u32 = 0;
-    pub static mut N_MUNMAP: u32 = 0;
-    pub static mut N_MPROTECT: u32 = 0;
-    pub static mut N_WRITE: u32 = 0;
-    pub static mut N_FLUSH: u32 = 0;
-    pub static mut N_BARRIER: u32 = 0;
-    /// true iff a barrier was executed after the most recent flush
-    pub static mut BARRIER_SINCE_FLUSH: bool = true;
-    /// a simulated write happened while the process-wide injector lock was free
-    pub static mut UNLOCKED_WRITE: bool = false;
+    pub static mut S: State = State {
+        MAGIC: 0x5eed_c0de_1234_5678,
+        NE_ACT: NE,
+        NJ_ACT: NJ,
+        NJIT: 0,
+        PAGE: 4096,
+        MODE: 0,
+        COOP_CENTER: 0,
+        COOP_RANGE: 0x800_0000,
+        LAYOUT: 0,
+        LAYOUT_FREE: 0,
+        LAYOUT_FALLBACK: 0,
+        LAYOUT_LO: 0,
+        LAYOUT_HI: 0,
+        MPROTECT_MAY_FAIL: false,
+        ANY_FORCE_AT: 0,
+        ALLOC_STRICT: false,
+        N_MMAP: 0,
+        N_MMAP_OK: 0,
+        N_MUNMAP: 0,
+        N_MPROTECT: 0,
+        N_WRITE: 0,
+        N_FLUSH: 0,
+        N_BARRIER: 0,
+        BARRIER_SINCE_FLUSH: true,
+        UNLOCKED_WRITE: false,
+        REQUIRE_LOCK: false,
+        PANICKING: false,
+        CELL: [0; 8],
+    };
 
     pub unsafe fn reset() {
         ENT = [EMPTY; NE];
         JIT = [EMPTY; NJ];
-        NJIT = 0;
-        N_MMAP = 0;
-        N_MMAP_OK = 0;
-        N_MUNMAP = 0;
-        N_MPROTECT = 0;
-        N_WRITE = 0;
-        N_FLUSH = 0;
-        N_BARRIER = 0;
-        BARRIER_SINCE_FLUSH = true;
-        UNLOCKED_WRITE = false;
+        S.NJIT = 0;
+        S.N_MMAP = 0;
+        S.N_MMAP_OK = 0;
+        S.N_MUNMAP = 0;
+        S.N_MPROTECT = 0;
+        S.N_WRITE = 0;
+        S.N_FLUSH = 0;
+        S.N_BARRIER = 0;
+        S.BARRIER_SINCE_FLUSH = true;
+        S.UNLOCKED_WRITE = false;
+        S.REQUIRE_LOCK = false;
+        S.PANICKING = false;
+        S.MPROTECT_MAY_FAIL = false;
+        S.ANY_FORCE_AT = 0;
+        S.ALLOC_STRICT = false;
     }
 
     /// simulated addresses are plain integers below 2^47; anything else is a real
@@ -129,11 +189,11 @@ pub mod sim {
 
     #[inline]
     pub fn page_floor(a: u64) -> u64 {
-        unsafe { a & !(PAGE - 1) }
+        unsafe { a & !(S.PAGE - 1) }
     }
     #[inline]
     pub fn page_ceil(a: u64) -> u64 {
-        unsafe { a.wrapping_add(PAGE - 1) & !(PAGE - 1) }
+        unsafe { a.wrapping_add(S.PAGE - 1) & !(S.PAGE - 1) }
     }
 
     /// Register function entry `i` at `base` (text, initially not writable).
@@ -170,9 +230,20 @@ pub mod sim {
         }
         None
     }
+    /// index of some live trampoline
+    pub unsafe fn find_live() -> Option<usize> {
+        let mut i = 0;
+        while i < S.NJ_ACT {
+            if JIT[i].live {
+                return Some(i);
+            }
+            i += 1;
+        }
+        None
+    }
     pub unsafe fn find_entry(addr: u64) -> Option<usize> {
         let mut i = 0;
-        while i < NE {
+        while i < S.NE_ACT {
             if ENT[i].live && ENT[i].base == addr {
                 return Some(i);
             }
@@ -208,16 +279,16 @@ pub mod sim {
         if n == 0 {
             return;
         }
-        N_WRITE += 1;
+        S.N_WRITE += 1;
         if !lock_held {
-            UNLOCKED_WRITE = true;
+            S.UNLOCKED_WRITE = true;
         }
         assert!(
             lock_held,
             "VERIF[C04]: code memory written while the process-wide injector lock is not held"
         );
         let mut i = 0;
-        while i < NE {
+        while i < S.NE_ACT {
             if ENT[i].live && ENT[i].base == addr {
                 store(&mut *addr_of_mut!(ENT[i]), tmp, n, true);
                 return;
@@ -225,7 +296,7 @@ pub mod sim {
             i += 1;
         }
         let mut j = 0;
-        while j < NJ {
+        while j < S.NJ_ACT {
             if JIT[j].live && JIT[j].base == addr {
                 store(&mut *addr_of_mut!(JIT[j]), tmp, n, false);
                 return;
@@ -238,7 +309,7 @@ pub mod sim {
     pub unsafe fn read_block(addr: u64, tmp: &mut [u8; RLEN], n: usize) {
         assert!(n <= RLEN, "VERIF[C03]: read longer than any entry slot");
         let mut i = 0;
-        while i < NE {
+        while i < S.NE_ACT {
             if ENT[i].live && ENT[i].base == addr {
                 *tmp = ENT[i].bytes;
                 return;
@@ -246,7 +317,7 @@ pub mod sim {
             i += 1;
         }
         let mut j = 0;
-        while j < NJ {
+        while j < S.NJ_ACT {
             if JIT[j].live && JIT[j].base == addr {
                 *tmp = JIT[j].bytes;
                 return;
@@ -272,30 +343,30 @@ pub mod sim {
 
     /// instruction-cache synchronisation of [s, e)
     pub unsafe fn flush(s: u64, e: u64) {
-        N_FLUSH += 1;
-        BARRIER_SINCE_FLUSH = false;
+        S.N_FLUSH += 1;
+        S.BARRIER_SINCE_FLUSH = false;
         let mut i = 0;
-        while i < NE {
+        while i < S.NE_ACT {
             flush_region(&mut *addr_of_mut!(ENT[i]), s, e);
             i += 1;
         }
         let mut j = 0;
-        while j < NJ {
+        while j < S.NJ_ACT {
             flush_region(&mut *addr_of_mut!(JIT[j]), s, e);
             j += 1;
         }
     }
 
     pub unsafe fn barrier() {
-        N_BARRIER += 1;
-        BARRIER_SINCE_FLUSH = true;
+        S.N_BARRIER += 1;
+        S.BARRIER_SINCE_FLUSH = true;
     }
 
     /// no byte of any live region is dirty
     pub unsafe fn all_clean() -> bool {
         let mut ok = true;
         let mut i = 0;
-        while i < NE {
+        while i < S.NE_ACT {
             if ENT[i].live {
                 let mut k = 0;
                 while k < RLEN {
@@ -308,7 +379,7 @@ pub mod sim {
             i += 1;
         }
         let mut j = 0;
-        while j < NJ {
+        while j < S.NJ_ACT {
             if JIT[j].live {
                 let mut k = 0;
                 while k < RLEN {
@@ -327,7 +398,7 @@ pub mod sim {
     pub unsafe fn collides(a: u64, maplen: u64) -> bool {
         let end = a.wrapping_add(maplen);
         let mut i = 0;
-        while i < NE {
+        while i < S.NE_ACT {
             if ENT[i].live {
                 let lo = page_floor(ENT[i].base);
                 let hi = page_ceil(ENT[i].base.wrapping_add(RLEN as u64));
@@ -338,7 +409,7 @@ pub mod sim {
             i += 1;
         }
         let mut j = 0;
-        while j < NJ {
+        while j < S.NJ_ACT {
             if JIT[j].live {
                 let lo = JIT[j].base;
                 let hi = lo.wrapping_add(page_ceil(JIT[j].len as u64));
@@ -376,15 +447,25 @@ fn nondet_bool() -> bool {
 fn assume(_c: bool) {}
 
 unsafe fn new_mapping(r: u64, len: size_t) -> *mut c_void {
-    assert!(sim::NJIT < sim::NJ, "MODEL: more trampoline mappings than the model has slots");
-    let j = sim::NJIT;
-    sim::NJIT += 1;
+    // first slot that is not currently mapped (slots of unmapped trampolines are recycled)
+    let mut j = sim::S.NJ_ACT;
+    let mut i = 0;
+    while i < sim::S.NJ_ACT {
+        if j == sim::S.NJ_ACT && !sim::JIT[i].live {
+            j = i;
+        }
+        i += 1;
+    }
+    assert!(j < sim::S.NJ_ACT, "MODEL: more simultaneously live trampoline mappings than the model has slots");
+    if j >= sim::S.NJIT {
+        sim::S.NJIT = j + 1;
+    }
     sim::JIT[j] = sim::EMPTY;
     sim::JIT[j].base = r;
     sim::JIT[j].live = true;
     sim::JIT[j].slot = sim::RLEN;
     sim::JIT[j].len = len;
-    sim::N_MMAP_OK += 1;
+    sim::S.N_MMAP_OK += 1;
     r as *mut c_void
 }
 
@@ -396,7 +477,7 @@ pub unsafe fn mmap(
     _fd: c_int,
     _off: off_t,
 ) -> *mut c_void {
-    sim::N_MMAP += 1;
+    sim::S.N_MMAP += 1;
     assert!(len > 0 && len <= sim::RLEN, "MODEL: trampoline length outside the modelled block");
     assert!(
         prot & PROT_WRITE != 0 && prot & PROT_EXEC != 0,
@@ -404,40 +485,58 @@ pub unsafe fn mmap(
     );
     let maplen = sim::page_ceil(len as u64);
     let hint = addr as u64;
-    match sim::MODE {
+    if sim::S.ALLOC_STRICT {
+        assert!(
+            sim::live_jits() == 0,
+            "VERIF[C11,C12]: a placement that was tried and rejected is still mapped when the next one is tried"
+        );
+        let mut i = 0;
+        while i < sim::S.NE_ACT {
+            assert!(
+                !sim::ENT[i].live || (sim::ENT[i].nwrites == 0 && sim::S.N_MPROTECT == 0),
+                "VERIF[C11]: the function was modified or re-protected before a trampoline within reach was secured"
+            );
+            i += 1;
+        }
+    }
+    match sim::S.MODE {
         0 => {
             let r = nondet_u64();
-            assume(r & (sim::PAGE - 1) == 0 && r >= sim::PAGE && r < sim::USER_TOP - maplen);
-            assume(r.abs_diff(sim::COOP_CENTER) <= sim::COOP_RANGE);
+            assume(r & (sim::S.PAGE - 1) == 0 && r >= sim::S.PAGE && r < sim::USER_TOP - maplen);
+            assume(r.abs_diff(sim::S.COOP_CENTER) <= sim::S.COOP_RANGE);
             assume(!sim::collides(r, maplen));
             new_mapping(r, len)
         }
         1 => {
-            if nondet_bool() {
+            let forced = sim::S.ANY_FORCE_AT != 0 && sim::S.N_MMAP >= sim::S.ANY_FORCE_AT;
+            if !forced && nondet_bool() {
                 return MAP_FAILED;
             }
             let r = nondet_u64();
-            assume(r & (sim::PAGE - 1) == 0 && r >= sim::PAGE && r < sim::USER_TOP - maplen);
+            assume(r & (sim::S.PAGE - 1) == 0 && r >= sim::S.PAGE && r < sim::USER_TOP - maplen);
             assume(!sim::collides(r, maplen));
+            if forced {
+                assume(r.abs_diff(sim::S.COOP_CENTER) < sim::S.COOP_RANGE);
+            }
             new_mapping(r, len)
         }
         _ => {
             // Linux without MAP_FIXED: the hint (rounded down to a page) is used iff
             // that range is free, otherwise the kernel picks by itself.
             let h = sim::page_floor(hint);
-            let in_hood = h >= sim::LAYOUT_LO && h <= sim::LAYOUT_HI;
-            let free = h >= sim::PAGE
+            let in_hood = h >= sim::S.LAYOUT_LO && h <= sim::S.LAYOUT_HI;
+            let free = h >= sim::S.PAGE
                 && !sim::collides(h, maplen)
                 && (!in_hood
-                    || match sim::LAYOUT {
+                    || match sim::S.LAYOUT {
                         0 => true,
                         1 => false,
-                        _ => h == sim::LAYOUT_FREE,
+                        _ => h == sim::S.LAYOUT_FREE,
                     });
             if free {
                 return new_mapping(h, len);
             }
-            let fb = sim::LAYOUT_FALLBACK;
+            let fb = sim::S.LAYOUT_FALLBACK;
             if fb == 0 || sim::collides(fb, maplen) {
                 return MAP_FAILED;
             }
@@ -447,10 +546,10 @@ pub unsafe fn mmap(
 }
 
 pub unsafe fn munmap(addr: *mut c_void, len: size_t) -> c_int {
-    sim::N_MUNMAP += 1;
+    sim::S.N_MUNMAP += 1;
     let a = addr as u64;
     let mut j = 0;
-    while j < sim::NJ {
+    while j < sim::S.NJ_ACT {
         if sim::JIT[j].live && sim::JIT[j].base == a {
             assert!(
                 len > 0 && sim::page_ceil(len as u64) == sim::page_ceil(sim::JIT[j].len as u64),
@@ -465,12 +564,12 @@ pub unsafe fn munmap(addr: *mut c_void, len: size_t) -> c_int {
 }
 
 pub unsafe fn mprotect(addr: *mut c_void, len: size_t, prot: c_int) -> c_int {
-    sim::N_MPROTECT += 1;
+    sim::S.N_MPROTECT += 1;
     let a = addr as u64;
-    if a & (sim::PAGE - 1) != 0 {
+    if a & (sim::S.PAGE - 1) != 0 {
         return -1; // EINVAL
     }
-    if sim::MPROTECT_MAY_FAIL && nondet_bool() {
+    if sim::S.MPROTECT_MAY_FAIL && nondet_bool() {
         return -1;
     }
     let end = a.wrapping_add(sim::page_ceil(len as u64));
@@ -480,7 +579,7 @@ pub unsafe fn mprotect(addr: *mut c_void, len: size_t, prot: c_int) -> c_int {
         "VERIF[C03]: mprotect removes read/execute permission from program text"
     );
     let mut i = 0;
-    while i < sim::NE {
+    while i < sim::S.NE_ACT {
         if sim::ENT[i].live {
             let mut k = 0;
             while k < sim::RLEN {
@@ -497,5 +596,5 @@ pub unsafe fn mprotect(addr: *mut c_void, len: size_t, prot: c_int) -> c_int {
 }
 
 pub unsafe fn sysconf(_name: c_int) -> c_long {
-    sim::PAGE as c_long
+    sim::S.PAGE as c_long
 }
